@@ -180,6 +180,9 @@ func startWorker(bin, dir string, prop string, env map[string]string, tag string
 		e = append(e, k+"="+v)
 	}
 	cmd.Env = e
+	// a crashed worker writes no result: make sure no stale one is read
+	os.Remove(w.out)
+	os.Remove(w.status)
 	ef, _ := os.Create(w.stderr)
 	cmd.Stdout, cmd.Stderr = ef, ef
 	w.err = cmd.Run()
@@ -804,7 +807,11 @@ func shrinkCrash(bin, dir string, rf replayFile, sig string, budgetS int) (repla
 		c.Decisions = dec
 		p := filepath.Join(dir, "cand.json")
 		writeJSON(p, c)
-		_, crashed, s, _ := runReplay(bin, dir, p, false, "cand")
+		// (tag must differ from the candidate file's base name: the worker's
+		// output file is <tag>.json, and a crashed worker writes none - nor
+		// removes the one a previous candidate left behind)
+		os.Remove(filepath.Join(dir, "cand-run.json"))
+		_, crashed, s, _ := runReplay(bin, dir, p, false, "cand-run")
 		return crashed && s == sig
 	}
 	if sig == wedgeSig {
